@@ -922,8 +922,10 @@ def rule_mm_cases(ctx, rep, rid):
         raise Broken("cds_lfht_mm_chunk vanished")
     slots = dict((k.split(".")[-1], v) for k, v in g["init"][2])
     shape = {}
+    mf = ctx.mod("cds", "flat")     # plugin functions are roots (address taken): helpers extracted from them are inlined here
     for role in ("alloc_bucket_table", "free_bucket_table"):
-        f = m.fn(slots[role][1])
+        f = mf.fn(slots[role][1]) or m.fn(slots[role][1])
+        rep.touch(f)
         phs = [i for i in f.all_insts() if i.op == "phi" and any(ir.expr(f, v, 3) == ("bin", "add", ("phi", i.id), ("c", 1)) or ir.expr(f, v, 3) == ("bin", "add", ("phi", i.id), ("c", -1)) for v, _b in i.d["inc"])]
         if len(phs) != 1:
             raise Broken("chunk %s: chunk loop not recognised" % role)
@@ -950,6 +952,8 @@ def rule_mm_cases(ctx, rep, rid):
             if x[0] == "bin" and x[1] == "add":
                 return is_len(x[2]) and is_len(x[3])
             return False
+        if len(init) != 1 or not is_len(init[0]) and not (init[0][0] == "bin" and init[0][1] == "shl"):
+            raise Broken("chunk %s: first chunk index %s is not of the form 1 << (...): not comparable" % (role, [norm(x) for x in init]))
         okshape = len(init) == 1 and is_len(init[0]) and [norm(x) for x in step] == ["(phi# add 1)"] and set(a[0] for t, s_, a in bnd) == {"ult", "uge"} and all(is_2len(a[2]) for t, s_, a in bnd)
         shape[role] = ("len" if len(init) == 1 and is_len(init[0]) else sorted(map(norm, init)), sorted(map(norm, step)), sorted(set((a[0], "2*len" if is_2len(a[2]) else norm(a[2])) for t, s_, a in bnd)))
         # polarity: the `ult` edge enters the body
